@@ -70,3 +70,57 @@ pub fn batch_info(msgs: &[Message]) -> AppendableBatchInfo {
     }
     AppendableBatchInfo::new(sz, 1)
 }
+
+use crate::verif::sync::streaming::topics::topic::Topic;
+use iggy::compression::compression_algorithm::CompressionAlgorithm;
+use iggy::utils::topic_size::MaxTopicSize;
+use iggy::verif_model::map::AHashMap;
+
+/// Topic 1 of stream 1 built literally (all fields are pub / pub(crate)): no constructor I/O.
+pub fn new_topic(cfg: &Arc<SystemConfig>, st: &Arc<SystemStorage>, c: &Counters, max_topic_size: MaxTopicSize, message_expiry: IggyExpiry) -> Topic {
+    Topic {
+        stream_id: 1,
+        topic_id: 1,
+        name: String::new(),
+        path: String::new(),
+        partitions_path: String::new(),
+        size_bytes: c.size_topic.clone(),
+        size_of_parent_stream: c.size_stream.clone(),
+        messages_count_of_parent_stream: c.msgs_stream.clone(),
+        messages_count: c.msgs_topic.clone(),
+        segments_count_of_parent_stream: c.segs_stream.clone(),
+        config: cfg.clone(),
+        partitions: AHashMap::new(),
+        storage: st.clone(),
+        consumer_groups: AHashMap::new(),
+        consumer_groups_ids: AHashMap::new(),
+        current_consumer_group_id: AtomicU32::new(1),
+        current_partition_id: AtomicU32::new(1),
+        message_expiry,
+        compression_algorithm: CompressionAlgorithm::None,
+        max_topic_size,
+        replication_factor: 1,
+        created_at: IggyTimestamp::zero(),
+    }
+}
+
+// ------------------------------------------------------------------------------------------------
+// Cut / summary stubs for twin (sync) functions. A *cut* panics: reaching it is reported, nothing is
+// hidden. A *summary* replaces a callee by its contract, and the contract is discharged by its own
+// harness (named next to each summary).
+// ------------------------------------------------------------------------------------------------
+use iggy::confirmation::Confirmation;
+use iggy::error::IggyError;
+
+pub fn cut_persist_messages(_s: &mut Segment, _c: Option<Confirmation>) -> Result<usize, IggyError> {
+    panic!("cut: Segment::persist_messages must not be reached in this harness");
+}
+pub fn cut_add_persisted_segment(_p: &mut Partition, _start: u64) -> Result<(), IggyError> {
+    panic!("cut: Partition::add_persisted_segment must not be reached in this harness");
+}
+/// summary of `Segment::is_full` for an OPEN segment: full iff size >= max size (an open segment is
+/// never expired). Contract discharged by harness `c14_open_segment_full_iff_size`.
+pub fn summary_is_full_open(s: &Segment) -> bool {
+    assert!(!s.is_closed, "summary_is_full_open used on a closed segment");
+    s.size_bytes >= s.max_size_bytes
+}
